@@ -495,6 +495,10 @@ class World:
         rec.op = obj
         rec.D = D
         rec.cls = type(obj).__name__
+        if op["k"] == "derive":
+            srec_ = self.objs[op["src"]]
+            rec.faulted = rec.faulted or srec_.faulted
+            rec.jitter_taint = max(rec.jitter_taint, srec_.jitter_taint)
         rec.square = D.shape[-1] == D.shape[-2]
         rec.psd = _is_psd(D)
         if self.mode == "C13":
@@ -744,6 +748,11 @@ class World:
             # inverse functionals in the iterative regime: Lanczos noise (1e-6) is amplified by the squared condition number of
             # the (possibly concatenated / updated) matrix; cache-confusion defects still give O(1) errors
             lim = max(lim, 2e-2, 100 * fres.err, 3e-5 * self._cond(rec))
+        if not direct:
+            # every Lanczos-based factor is a factor of A + tj * (smallest Ritz value) * I: with a large tridiagonal_jitter setting
+            # (1e-3) forward functionals are off by ~tj and inverse ones by ~tj * cond, on both sides and with different draws
+            tj = float(world._get_setting("tridiagonal_jitter") or 0.0)
+            lim = max(lim, 10 * tj * (self._cond(rec) if op["q"] in INVERSE_QUERIES else 1.0))
         if not (hres.err <= lim):
             self.violate("C12", "value", rec.cls, qsig,
                          f"step {i}: {label}: error functional {hres.err:.3g} on the historied object vs {fres.err:.3g} on a fresh copy "
